@@ -76,7 +76,7 @@ def r_graph(desc):
             bad.add("cycle")
         flags = {}
         for s in ph["stmts"]:
-            if s["kind"] == "switch" and s["target"] not in phases:
+            if s["kind"] == "switch" and s["target"] not in phases and s["target"] not in desc.get("alias", {}):
                 bad.add("switch-target")
             if s["kind"] == "condassign":
                 flags[s["flag"]] = flags.get(s["flag"], 0) + 1
@@ -121,7 +121,11 @@ def build(desc):
             stmts = frozenset(stmts)
         elif container == "tuple":
             stmts = tuple(stmts)
-        phases[pname] = ExecutionPhase(pname, ph["next"], stmts)
+        # ("names": the name the phase object carries differs from the key it is filed under -- the mapping's keys
+        # are what the method's switches and successors refer to)
+        phases[pname] = ExecutionPhase(desc.get("names", {}).get(pname, pname), ph["next"], stmts)
+    for newkey, oldkey in desc.get("alias", {}).items():
+        phases[newkey] = phases[oldkey]          # one phase object filed under two keys
     return DAGCode(phases, desc["initial"])
 
 
@@ -445,11 +449,29 @@ def rand_desc(rng):
         phases[idle] = {"stmts": [], "next": rng.choice(pn)}
         allids[idle] = []
         targets += [idle, idle]
-    if rng.random() < 0.4:
+    extra = {}
+    ghosts = []
+    if rng.random() < 0.2:
+        # phases filed under keys other than the names the phase objects carry: re-keyed ('rk_' + name), names
+        # exchanged between two phases, or one phase object under a second key
+        c = rng.random()
+        if c < 0.4:
+            extra["names"] = {p: "name_of_" + p for p in pn}
+            ghosts = ["name_of_" + p for p in pn]           # carried by a phase object, but no key: not a target
+        elif c < 0.6 and nph > 1:
+            extra["names"] = {pn[0]: pn[1], pn[1]: pn[0]}
+        elif c < 0.8:
+            extra["names"] = {p: "step" for p in pn}        # every phase object carries the same name
+            ghosts = ["step"]
+        else:
+            extra["alias"] = {"again": rng.choice(pn)}
+            targets += ["again", "again"]
+    if rng.random() < (0.7 if extra else 0.4):
         p = rng.choice(pn)
         last = phases[p]["stmts"][-1]["id"]
         phases[p]["stmts"].append({"id": p + "sw", "kind": "switch",
-                                   "target": rng.choice(targets + [missing_target(rng, pn)]), "deps": [last]})
+                                   "target": rng.choice(targets + [missing_target(rng, pn)] + ghosts + ghosts),
+                                   "deps": [last]})
     if rng.random() < 0.4:
         p = rng.choice(pn)
         nw = rng.choice([1, 1, 2])
@@ -463,8 +485,8 @@ def rand_desc(rng):
             phases[q]["stmts"].append({"id": f"{q}cw", "kind": "condassign", "flag": "g", "deps": []})
     for p in pn:
         rng.shuffle(phases[p]["stmts"])
-    return {"phases": phases, "initial": pn[0],
-            "container": rng.choice(["list", "frozenset", "tuple"])}
+    return dict({"phases": phases, "initial": pn[0],
+                 "container": rng.choice(["list", "frozenset", "tuple"])}, **extra)
 
 # }}}
 
